@@ -58,8 +58,9 @@ def run(r):
     if broken or not ok:
         found = False
         if not broken:
-            okb, _ = C.coq_build(["Proofs/ResolveProofs.vo"])
-            out, err = C.coq_eval_term(r.wd, "pf", HEADER + "\nFrom Xdis Require Import Proofs.ResolveProofs Proofs.C02Tables.", "(map (fun '(T, R) => (t_name T, plan_failures T R)) oracle_pairs, cmp_spelling_diffs)") if okb else (None, "")
+            okb, _ = C.coq_build(["Model/ResolveChecks.vo"])
+            out, err = C.coq_eval_term(r.wd, "pf", HEADER + "\nFrom Xdis Require Import Model.ResolveChecks.",
+                                       "(map (fun '(T, R) => (t_name T, plan_failures T R)) res_pairs, map (fun '(T, R) => (t_name T, cmp_diff (t_cmp_op T) (r_cmp_op R) 0)) res_pairs)") if okb else (None, "")
             if out and ("(" in out.split("cmp")[0]):
                 import re
                 rows = re.findall(r'\("(opcode_\w+)"%string,\s*\[\s*\(([^\]]+)\]', " ".join(out.split()))
